@@ -183,6 +183,12 @@ KexFamilies == {"dh", "gex", "ecdh", "c25519"}
 \* "keyboard-interactive" as the only method left, so that it falls back to auth_interactive() with its own handler
 Methods     == {"none", "password", "publickey", "kbdint", "password-kbdint"}
 Interactive == {"kbdint", "password-kbdint"}
+\* stage "deferred": peer data that the transport thread only STORES (EXT_INFO extension values go raw into
+\* Transport.server_extensions) and that an API call parses later in the CALLER's thread, outside run()'s handlers.
+\* The method slot names that later call: auth_publickey with an RSA key decodes server-sig-algs
+\* (AuthHandler._finalize_pubkey_algorithm; transport thread for Transport, caller's thread for
+\* ServiceRequestingTransport/AuthOnlyHandler = "@srt"); the other calls are controls that must not touch it.
+LaterCalls  == {"publickey-rsa", "publickey-rsa@srt", "publickey-ed25519@srt", "password@srt"}
 Ciphers     == {"ctr-hmac", "ctr-etm", "cbc-hmac", "gcm"}        \* every CIPHERTEXT case is run once per suite
 
 VARIABLES role,      \* "client" | "server": the endpoint under test (the victim); fixed by Init
@@ -195,7 +201,7 @@ VARIABLES role,      \* "client" | "server": the endpoint under test (the victim
                      \* (A set-valued outcome instead of one state per outcome keeps the graph at one state per case.)
 vars == <<role, stage, fam, method, inj, surfaced>>
 
-Stages == {"banner", "kexinit", "kex1", "kex2", "newkeys", "secured", "service", "userauth", "kbdint",
+Stages == {"banner", "kexinit", "kex1", "kex2", "newkeys", "secured", "deferred", "service", "userauth", "kbdint",
            "gss_token", "gss_mic", "authed", "end"}
 
 Always == {"DISCONNECT", "DEBUG", "IGNORE", "UNIMPLEMENTED"}     \* handled inline by run() once packets flow
@@ -236,6 +242,7 @@ ParsedDef(r, s, f, meth) ==
     [] s = "secured" -> Always \cup {"EXT_INFO", "KEXINIT", "CIPHERTEXT"} \cup
                         (IF r = "server" THEN {"SERVICE_REQUEST"} \cup ServerAuthRequests \cup {"USERAUTH_INFO_RESPONSE"}
                          ELSE {})
+    [] s = "deferred" -> IF r = "client" THEN {"EXT_INFO"} ELSE {}
     [] s = "service" -> IF r = "server" THEN ServerAuthRequests \cup {"SERVICE_REQUEST"} ELSE {"SERVICE_ACCEPT"}
     [] s = "userauth" -> {"USERAUTH_SUCCESS", "USERAUTH_FAILURE", "USERAUTH_BANNER"} \cup
                          (IF meth \in Interactive THEN {"USERAUTH_INFO_REQUEST"} ELSE {}) \cup
@@ -246,7 +253,8 @@ ParsedDef(r, s, f, meth) ==
     [] s = "authed"   -> Connection(r) \cup {"KEXINIT", "CIPHERTEXT"} \cup Always
     [] OTHER -> {}
 
-ParsedOf == [r \in {"client", "server"}, s \in Stages, f \in KexFamilies \cup {"-"}, meth \in Methods \cup {"-"}
+ParsedOf == [r \in {"client", "server"}, s \in Stages, f \in KexFamilies \cup {"-"},
+             meth \in Methods \cup LaterCalls \cup {"-"}
                |-> ParsedDef(r, s, f, meth)]
 Parsed(r, s, f, meth) == ParsedOf[r, s, f, meth]
 
@@ -280,23 +288,27 @@ Case(s, f, meth, m, i, c) == [stage |-> s, fam |-> f, method |-> meth, msg |-> m
 
 \* every abstract case of the model for one role: what TLC enumerates and the driver concretises
 InModel(r, k) ==
-  /\ k.stage \in Stages /\ k.fam \in KexFamilies \cup {"-"} /\ k.method \in Methods \cup {"-"}
+  /\ k.stage \in Stages /\ k.fam \in KexFamilies \cup {"-"} /\ k.method \in Methods \cup LaterCalls \cup {"-"}
   /\ \/ /\ k.msg \in Parsed(r, k.stage, k.fam, k.method)
         /\ <<k.idx, k.class>> \in Malformations(k.msg)
      \/ /\ k.msg \in Misplaced(r, k.stage) /\ k.idx = 0 /\ k.class = "misplaced"
 
 \* the fixed part of every run of the check, whatever the tier and the seed: in the authentication stages, every
 \* field of every message that is parsed there, cut off before / inside the field or (text-like fields) not UTF-8
-AuthStages == {"service", "userauth", "kbdint", "gss_token", "gss_mic"}
+\* and every field of a message whose content is stored and parsed by a later API call (stage "deferred")
+AuthStages == {"service", "userauth", "kbdint", "gss_token", "gss_mic", "deferred"}
 Core(r, k) == /\ k.stage \in AuthStages /\ k.idx > 0
-              /\ k.msg \in Parsed(r, k.stage, k.fam, k.method) \ (Always \cup {"KEXINIT", "CIPHERTEXT", "EXT_INFO"})
+              /\ k.msg \in Parsed(r, k.stage, k.fam, k.method) \
+                         (Always \cup {"KEXINIT", "CIPHERTEXT"} \cup (IF k.stage = "deferred" THEN {} ELSE {"EXT_INFO"}))
               /\ k.class \in {"trunc_before", "trunc_inside", "bad_utf8"}
 
 (* --- how a malformed field comes out of the decoders of the pinned tree (used only when ~Guarded, and as
    the prediction the trace spec compares observations with).  "-" = no internal error expected:
    the message is tolerated (Message.get_* pads short reads with zero bytes) or rejected with SSHException *)
-RawClass(r, s, m, i, c) ==
-  IF s = "gss_token" THEN "TypeError"          \* GssapiWithMicAuthHandler's table holds plain functions: handler(m) fails
+RawClass(r, s, meth, m, i, c) ==
+  IF s = "deferred" THEN
+       (IF meth = "publickey-rsa@srt" /\ i = 3 /\ c = "bad_utf8" THEN "UnicodeDecodeError" ELSE "-")   \* u(server-sig-algs)
+  ELSE IF s = "gss_token" THEN "TypeError"          \* GssapiWithMicAuthHandler's table holds plain functions: handler(m) fails
   ELSE IF m = "USERAUTH_REQUEST.gss_keyex" THEN "AttributeError"   \* no GSS context: falls through to None.ssh_check_mic
   ELSE IF i = 0 THEN
        (IF c = "misplaced" /\ r = "server" /\ s \in {"secured", "service"} /\ m \in Responses
@@ -319,9 +331,9 @@ RawClass(r, s, m, i, c) ==
       [] OTHER -> "-"
 
 AllowedClasses == {"SSHException", "EOFError", "OSError"}
-Outcomes(r, s, m, i, c) ==
+Outcomes(r, s, meth, m, i, c) ==
   {"tolerated", "SSHException", "EOFError"} \cup
-  (IF ~Guarded /\ RawClass(r, s, m, i, c) # "-" THEN {RawClass(r, s, m, i, c)} ELSE {})
+  (IF ~Guarded /\ RawClass(r, s, meth, m, i, c) # "-" THEN {RawClass(r, s, meth, m, i, c)} ELSE {})
 
 Init == /\ role \in Roles /\ stage = "banner" /\ fam = "-" /\ method = "-" /\ inj = <<>> /\ surfaced = {}
 
@@ -337,6 +349,7 @@ WellFormed ==
      \/ stage = "newkeys" /\ Goto("secured", "-", "-")
      \/ stage = "secured" /\ role = "server" /\ Goto("service", "-", "-")              \* SERVICE_REQUEST/ACCEPT
      \/ stage = "secured" /\ role = "client" /\ \E me \in Methods : Goto("service", "-", me)   \* user calls auth_*
+     \/ stage = "secured" /\ role = "client" /\ \E me \in LaterCalls : Goto("deferred", "-", me)  \* ... after the next message
      \/ stage = "service" /\ role = "client" /\ Goto("userauth", "-", method)          \* SERVICE_ACCEPT, request sent
      \/ stage = "service" /\ role = "server" /\ Goto("kbdint", "-", "-")               \* kbd-interactive query sent
      \/ stage = "service" /\ role = "server" /\ Goto("gss_token", "-", "-")            \* gssapi-with-mic accepted
@@ -350,7 +363,7 @@ Inject ==
   /\ \E m \in Parsed(role, stage, fam, method) \cup Misplaced(role, stage) :
        \E ic \in (IF m \in Parsed(role, stage, fam, method) THEN Malformations(m) ELSE {<<0, "misplaced">>}) :
            /\ inj' = Case(stage, fam, method, m, ic[1], ic[2])
-           /\ surfaced' = Outcomes(role, stage, m, ic[1], ic[2])
+           /\ surfaced' = Outcomes(role, stage, method, m, ic[1], ic[2])
            /\ stage' = "end" /\ UNCHANGED <<role, fam, method>>
 
 Next == WellFormed \/ Inject
@@ -363,7 +376,8 @@ Allowed(mro) == \E k \in 1..Len(mro) : mro[k] \in AllowedClasses
 Failures == surfaced \ {"tolerated"}                      \* the classes a resulting failure can surface as
 FailureClassAllowed == Failures \subseteq AllowedClasses   \* C38 on the model
 
-TypeOK == /\ role \in Roles /\ stage \in Stages /\ fam \in KexFamilies \cup {"-"} /\ method \in Methods \cup {"-"}
+TypeOK == /\ role \in Roles /\ stage \in Stages /\ fam \in KexFamilies \cup {"-"}
+          /\ method \in Methods \cup LaterCalls \cup {"-"}
           /\ (inj # <<>> => InModel(role, inj))
 
 \* spec -> code: the grammar once, then one CASE per abstract case (= per post-injection state) with its Core flag
